@@ -185,3 +185,28 @@ CLAIMED['C37'] = dict(
          "(it rests on the CAS on pos_, i.e. the RMW axiom), the resize mutex (RAII lock_guard), deleteLater_ bookkeeping, swap/move/assignment. The copy-constructor defect this check "
          "found on the pinned tree was repaired (fix: commit in known_findings.txt).",
     technique="CBMC DFCC function + nested loop contracts with ghost heap / ghost construction cursor")
+
+CLAIMED['C24'] = dict(
+    category='proof',
+    text="Rely/guarantee proof (CBMC) of requestUpdate, updateRequested, tryEmplaceUpdate and getUpdate with an ownership ghost for obj_: before every atomic access an interference step "
+         "lets any number of other producers and consumers perform any sequence of their legal operations on state_/obj_ (everything except what this thread exclusively owns). Obligations: "
+         "obj_ is emplaced or moved only while owned; ownership is obtained only by a successful RMW with acquire and released only by a store with release; tryEmplaceUpdate returns true "
+         "only after kNeedsUpdate->kUpdating->kReady with the value in place; getUpdate returns a value only if one was emplaced after the latest request and, holding obj_ exclusively, "
+         "delivers it to this call alone. Verified under the documented multi-consumer rely and under the single-consumer rely.",
+    note="A-SC (only release/acquire at ownership transfer is checked); R/G meta-theorem and the rely written in specs/c24_async.c are trusted; compare_exchange_strong does not fail "
+         "spuriously; pre-C++17 branch (detail::OpResult, contracts proved under C40). The double-delivery defect this check found on the pinned tree (two consumers both moving after a "
+         "plain load of kReady) was repaired (fix: commit in known_findings.txt).",
+    technique="CBMC DFCC contracts, rely/guarantee via interference before each atomic macro, ownership ghost")
+
+CLAIMED['C35'] = dict(
+    category='proof',
+    text="Rely/guarantee proof (CBMC) of try_push (move and copy), try_emplace, try_pop(T&), try_pop_into, empty, full, size and the destructor of SPSCRingBuffer at the buffer sizes the "
+         "header computes for several instantiations (power-of-two and exact), with head_/tail_ fully symbolic (all wrap-around positions). Invariant: slot k holds a live object <=> k lies "
+         "in the cyclic interval [head_, tail_). Producer units run under arbitrary interference by the consumer (any number of pops before every atomic access), consumer units under "
+         "arbitrary interference by the producer. Obligations: the invariant is preserved; a push succeeds iff not full as observed, constructs exactly one object into a dead slot at the "
+         "old tail and publishes it with release; a pop succeeds whenever the ring was non-empty, hands out the oldest element, destroys it exactly once and publishes head with release; "
+         "occupancy never exceeds capacity(); the destructor destroys exactly the remaining elements; the other role's index is read with acquire.",
+    note="A-SC; R/G meta-theorem and the two relies (specs/c35_spsc.c) are trusted; FIFO order and exactly-once follow from the slot-lifetime invariant and index discipline proved here "
+         "(no abstract sequence ghost); storage_ bytes are rendered as a slot array; slot loops are bounded by the constant kBufferSize and unwound completely. Not under contract yet: "
+         "try_push_batch, try_pop_batch, OpResult-returning try_pop.",
+    technique="CBMC DFCC contracts, rely/guarantee via interference before each atomic macro, ghost lifetimes")
